@@ -1002,6 +1002,15 @@ def guarded(run, props):
             f = None            # C11 only speaks about what follows a rejected call
         else:
             f = library_failure(e, props, "a valid call of the history")
+            if f is None and isinstance(e, (ValueError, OverflowError)) and "to integer ratio" in str(e):
+                # the harness converts every number the library reports to an exact rational: NaN / inf in add
+                # feedback, statistics or stored data on a history of finite inputs is a failing input
+                import traceback
+                from core import Failure
+                fr_ = traceback.extract_tb(e.__traceback__)[-2]
+                label = sorted(props)[0] if len(props) == 1 else "/".join(sorted(props))
+                f = Failure("oracle", f"[{label}] the library reported a non-finite number (NaN / inf) on a history of "
+                            f"finite inputs ({fr_.name}: {(fr_.line or '')[:120]})")
             if f is not None and "C11" in props:
                 f.what = (f"[C11] after a rejected call ({run.after_bad}) the remaining valid history no longer behaves "
                           f"as if that call had never happened: {f.what}")
